@@ -74,8 +74,8 @@ def reachable(dag, a, b):
 
 def reorder_case(h, L):
     pu = h.module(PU)
-    cases = list(sequences(L))
-    deps = cases[h.eng.choose(len(cases), "deps")]
+    # one small choice per command (a single choice over 7^L alternatives is slow to enumerate)
+    deps = tuple(h.eng.choose(len(DEPSETS), f"dep{k}") for k in range(L))
     # every marking of the commands for L <= 3; for L = 4 the markings with 0, 1 (each position), 2 (adjacent, split) and 4 marked
     patterns = list(range(2 ** L)) if L <= 3 else [0b0000, 0b0001, 0b0010, 0b0100, 0b1000, 0b0110, 0b1001, 0b1111]
     marks = patterns[h.eng.choose(len(patterns), "marks")]
